@@ -539,14 +539,9 @@ def esc_category(ctx):
     cat_ok = blk_ok = 0
     compl_ok = True
     kinds = set()
-    for p in pp + PP:
+    for p, is_p in [(x, True) for x in pp] + [(x, False) for x in PP]:
         r = render(p.ret) if p.end == "return" else "<%s>" % p.end
         calls = [c[1] for c in p.effects if c[0] == "call"]
-        is_p = None
-        for a, ov in p.guards:
-            s = render(a)
-            if s in ("eq('p', %s)" % ESC_CH, "eq('p', %s)" % ESC_CH2) and ov in (True, False):
-                is_p = ov
         if r.startswith("Result::Ok"):
             has_c = any(c.endswith("CharacterClassBuilder::complement") for c in calls)
             src = "category" if "category_group" in calls else "block" if "block" in calls else "?"
